@@ -222,6 +222,23 @@ func gen(r *fw.RNG, o Opts, depth int, inRec bool) *Sel {
 			s := &Sel{Kind: "rec", Limit: lim, Seq: seq}
 			if len(o.Links) > 0 && r.Chance(1, 3) {
 				s.StopAt = o.Links[r.Intn(len(o.Links))]
+				// one stop-at link in four is a LOOK-ALIKE of a link of the graph: the same multihash under
+				// another codec or as CIDv0 — a different link, which stops nothing (round-4 seed C07-11: the
+				// condition comparing multihashes instead of CIDs)
+				if b := []byte(s.StopAt); r.Chance(1, 4) && len(b) > 4 && b[0] == 1 && (b[1] == 0x71 || b[1] == 0x55) {
+					switch r.Intn(3) {
+					case 0:
+						b[1] ^= 0x71 ^ 0x55
+						s.StopAt = string(b)
+					case 1:
+						b[1] = 0x51
+						s.StopAt = string(b)
+					default:
+						if b[2] == 0x12 && b[3] == 0x20 {
+							s.StopAt = string(b[2:]) // CIDv0
+						}
+					}
+				}
 			}
 			return s
 		case 11:
